@@ -126,6 +126,9 @@ func runWorker(bin string, job *sim.Job, extraEnv ...string) ([]*sim.RunResult, 
 	cmd := exec.Command(bin, "-test.run", "^TestWorker$", "-test.cpu", "1", "-test.timeout", "6h")
 	cmd.Env = append(os.Environ(), "VERIF_JOB="+jp)
 	cmd.Env = append(cmd.Env, extraEnv...)
+	if strings.HasSuffix(bin, ".race.test") {
+		cmd.Env = append(cmd.Env, "GORACE=halt_on_error=0 log_path="+filepath.Join(dir, "race"), "VERIF_RACE_LOG="+filepath.Join(dir, "race"))
+	}
 	cmd.Dir = dir
 	outb, werr := cmd.CombinedOutput()
 	var res []*sim.RunResult
@@ -142,6 +145,10 @@ func runWorker(bin string, job *sim.Job, extraEnv ...string) ([]*sim.RunResult, 
 		f.Close()
 	}
 	if werr != nil {
+		if len(res) > 0 && strings.Contains(string(outb), "race detected during execution of test") {
+			// a -race binary exits non-zero after a report; the report itself is in the results
+			return res, nil
+		}
 		return res, fmt.Errorf("worker: %v\n%s", werr, tail(string(outb), 3000))
 	}
 	return res, nil
